@@ -1,4 +1,5 @@
 import MaltModel.Proofs.ComposeJumps
+import MaltModel.Proofs.ComposePipeline
 import MaltModel.Props.C01Jumps
 /-
 C01 — composition of the jump-lowering passes and the chain into functionalisation.
@@ -205,5 +206,151 @@ example (ann : Func.Ann) :
 
 /-- A source outside `JumpHyp` (the counterexample of the per-pass part): the composition is wrong on it. -/
 example : JumpHyp Malt.Props.C01Jumps.cexRet = false := by decide
+
+/-! ## End to end along the extracted pipeline
+
+FULL statement (kept visible; not provable as it stands, see what is missing below):
+
+  theorem C01_pipeline (X) (c : PipeCfg) (body : Block) :
+    ∀ n σ o σ₁, execB X n body σ = some (o, σ₁) →
+      ∃ final, runSteps c Malt.Gen.Pipeline.steps (.src body) = some (.fin final) ∧
+        ∃ m σ₁' o', execNBW X m final (TSt.ofSt σ) = some (o', σ₁') ∧ fnResult o' = fnResult o ∧ σ₁'.log = σ₁.log
+
+What `C01_pipeline_partial` assumes instead, stage by stage:
+* jump passes: `JumpGens` on the generators and the ONE decidable source predicate `JumpHyp` (freshness, S1, no
+  EXTRA_LOOP_TEST, well-formed jumps); what the second and third pass need of their inputs is PROVED preserved
+  (Proofs/ComposePreserve.lean); outside S1 the statement is false (finding `raise_in_finally_over_jump`);
+* control_flow: `FuncHyp D q O` on the annotated INTERMEDIATE program `q` (annotation soundness: liveness
+  consistency, `declared`/`undefined` inclusions, definedness, `return` at top level).  It is a hypothesis, as in
+  `Func.control_flow_correct`; that the annotation exists as a program of the fragment is proved
+  (`C01_lowered_program_annotatable`), that the REAL analyses satisfy `FuncHyp` is what the C05–C08 chain and the
+  harness (`funcHyp` checker on the real `LIVE_VARS_*`/`DEFINED_VARS_IN`) establish, with the known exceptions;
+* expression wrappers: no hypothesis (`Malt.Sem` expressions have no comparison chains: `chainsOk_ofSem`).
+Outside the chain altogether: the `functions`/`directives` passes (no counterpart in `Malt.Sem`), the placement of
+`call_trees` before `control_flow` (its wrapper is part of the one expression model applied at the end), the
+`try/except: raise` wrapper of the return lowering, nested functions / closures (S2), and the feature-guarded
+passes (`asserts`, `lists`, `slices`).
+-/
+
+/-- **C01, end to end along the extracted pipeline** (S1 sources): if the source body terminates, the program
+obtained by running the stages in the order of `Malt.Gen.Pipeline.steps` — break, continue, return lowering,
+control-flow functionalisation, expression wrappers — is defined and, run under the native target semantics with
+converted expressions (`execNBW`) from any target store agreeing with the source store on the variables live at
+entry, terminates with the same function result and the same effect log. -/
+theorem C01_pipeline_partial (X : Ext) (c : PipeCfg) (gens : JumpGens c.genB c.genC c.dr c.rv)
+    (body : Block) (hyp : JumpHyp body = true)
+    (q : Func.ABlock) (hq : Func.annotB c.ann 0 (jumpPasses c.genB c.genC c.dr c.rv body) = some q)
+    (D O : List Name) (fh : Func.FuncHyp D q O)
+    (σ : St) (σ' : Func.TSt) (hag : Func.Agree (Func.blockIn q O) σ σ') (hb : Func.BoundSub σ D)
+    (n : Nat) (o : Out) (σ₁ : St) (h : execB X n body σ = some (o, σ₁)) :
+    ∃ final, runSteps c Malt.Gen.Pipeline.steps (.src body) = some (.fin final) ∧
+      ∃ m σ₁' o', Malt.SemW.execNBW X m final σ' = some (o', σ₁') ∧ fnResult o' = fnResult o ∧
+        σ₁'.log = σ₁.log := by
+  obtain ⟨t, ht, m, σ₁', o', hx, hres, hlog⟩ :=
+    C01_jumps_then_functionalise_partial X gens body hyp c.ann q hq D O fh σ σ' hag hb n o σ₁ h
+  refine ⟨Malt.SemW.wrapTB c.eqOn t, ?_, m, σ₁', o', ?_, hres, hlog⟩
+  · rw [runSteps_extracted, ht]; rfl
+  · rw [Malt.C01Exprs.wrap_target_correct]; exact hx
+
+/-- Whole-function form: the converted function called on the same store (the variables in `D` are the ones
+that may be bound at entry: the parameters) — same observable behaviour: function result and effect log. -/
+theorem C01_pipeline_observe_partial (X : Ext) (c : PipeCfg) (gens : JumpGens c.genB c.genC c.dr c.rv)
+    (body : Block) (hyp : JumpHyp body = true)
+    (q : Func.ABlock) (hq : Func.annotB c.ann 0 (jumpPasses c.genB c.genC c.dr c.rv body) = some q)
+    (D : List Name) (fh : Func.FuncHyp D q [])
+    (σ : St) (hb : Func.BoundSub σ D)
+    (n : Nat) (o : Out) (σ₁ : St) (h : execB X n body σ = some (o, σ₁)) :
+    ∃ final, runSteps c Malt.Gen.Pipeline.steps (.src body) = some (.fin final) ∧
+      ∃ m r', Malt.SemW.execNBW X m final (Func.TSt.ofSt σ) = some r' ∧
+        (fnResult r'.1, r'.2.log) = (fnResult o, σ₁.log) := by
+  obtain ⟨final, hf, m, σ₁', o', hx, hres, hlog⟩ :=
+    C01_pipeline_partial X c gens body hyp q hq D [] fh σ (Func.TSt.ofSt σ) (Func.agree_ofSt _ σ) hb n o σ₁ h
+  exact ⟨final, hf, m, (o', σ₁'), hx, by simp [hres, hlog]⟩
+
+/-- The order facts the chain relies on are among those `C01_pipeline_order` checks (`requiredBefore`); the chain
+itself depends on the extracted list more strongly, through `decode_extracted`. -/
+theorem C01_pipeline_uses_extracted_order :
+    decodeSteps Malt.Gen.Pipeline.steps =
+      some [.verify, .initialAnalysis, .functions, .directives, .breakStatements, .continueStatements,
+        .returnStatements, .callTrees, .controlFlow, .conditionalExpressions, .logicalExpressions, .variables] :=
+  decode_extracted
+
+/-! ### non-vacuity: a loop, a `break` under try/finally, an early `return` — every hypothesis discharged -/
+
+open Malt.Props.C01Jumps in
+/-- ```
+x = 0
+while d():
+    try:
+        if d(): break
+        x = tr(1, x)
+    finally:
+        tr(2)
+    if d(): return tr(3, x)
+return tr(0, x)
+``` -/
+def exPipe : Block :=
+  [.assign "x" (.const (.int 0)),
+   .whileS dcall
+     [.tryS [.ifS dcall [.brk] [], .assign "x" (trv 1 "x")] [] [.expr (tr 2)],
+      .ifS dcall [.ret (some (trv 3 "x"))] []],
+   .ret (some (trv 0 "x"))]
+
+/-- The lowered program and the names it mentions. -/
+def exPipeLowered : Block := jumpPasses (stdGen 'b') (stdGen 'c') stdDr stdRv exPipe
+def exPipeNames : List Name := (Malt.Conv.JumpToSem.namesB exPipeLowered).eraseDups
+
+/-- standard generators, the constant "everything live / declared" annotation over the names of the lowered
+program, EQUALITY_OPERATORS off -/
+def exCfg : PipeCfg :=
+  { genB := stdGen 'b', genC := stdGen 'c', dr := stdDr, rv := stdRv, ann := annAll exPipeNames, eqOn := false }
+
+def exPipeQ : Func.ABlock := (Func.annotB exCfg.ann 0 exPipeLowered).getD []
+
+theorem exPipe_jumpHyp : JumpHyp exPipe = true ∧ inS0B exPipe = false := ⟨by decide, by decide⟩
+
+theorem exPipe_annot : Func.annotB exCfg.ann 0 (jumpPasses exCfg.genB exCfg.genC exCfg.dr exCfg.rv exPipe) = some exPipeQ := by
+  obtain ⟨q, hq⟩ := C01_lowered_program_annotatable (stdGen 'b') (stdGen 'c') stdDr stdRv exPipe exCfg.ann
+  show Func.annotB exCfg.ann 0 exPipeLowered = some exPipeQ
+  unfold exPipeQ
+  have hq' : Func.annotB exCfg.ann 0 exPipeLowered = some q := hq
+  rw [hq']; rfl
+
+/-- the executable checker of `FuncHyp` accepts the annotation (nothing bound at entry, nothing live at exit) -/
+theorem exPipe_funcHyp : Func.FuncHyp [] exPipeQ [] :=
+  Func.funcHyp_checker_sound [] exPipeQ [] (by decide)
+
+/-- **The chain applies to `exPipe`**: for every oracle and fuel, from the empty store. -/
+theorem exPipe_pipeline (X : Ext) (n : Nat) (o : Out) (σ₁ : St)
+    (h : execB X n exPipe Malt.Props.C01Jumps.σ0 = some (o, σ₁)) :
+    ∃ final, runSteps exCfg Malt.Gen.Pipeline.steps (.src exPipe) = some (.fin final) ∧
+      ∃ m r', Malt.SemW.execNBW X m final (Func.TSt.ofSt Malt.Props.C01Jumps.σ0) = some r' ∧
+        (fnResult r'.1, r'.2.log) = (fnResult o, σ₁.log) :=
+  C01_pipeline_observe_partial X exCfg stdJumpGens exPipe exPipe_jumpHyp.1 exPipeQ exPipe_annot [] exPipe_funcHyp
+    Malt.Props.C01Jumps.σ0 (by intro y hy; exact absurd rfl hy) n o σ₁ h
+
+/-- `d()` answers from a decision list (by the number of `d` calls so far), `tr(k, v)` returns `v`. -/
+def XD (dec : List Int) : Ext :=
+  ⟨fun f args log =>
+    if f = "d" then .int (dec.getD (log.filter fun e => match e with | .call "d" _ => true | _ => false).length 0)
+    else args.getD 1 (args.headD .none)⟩
+
+/-- what an observer of the final program sees -/
+def finalObs (X : Ext) (m : Nat) : Option (Out × List Event) :=
+  match runSteps exCfg Malt.Gen.Pipeline.steps (.src exPipe) with
+  | some (.fin t) => (Malt.SemW.execNBW X m t (Func.TSt.ofSt Malt.Props.C01Jumps.σ0)).map fun r => (fnResult r.1, r.2.log)
+  | _ => none
+
+/-- … and it really runs: one iteration, then the `break` under try/finally (the `finally` still logs `tr 2`),
+then the final return — source and final program, computed. -/
+example : (execB (XD [1, 0, 0, 1, 1]) 40 exPipe Malt.Props.C01Jumps.σ0).map (fun r => (fnResult r.1, r.2.log)) =
+    some (.ret (.int 0), [.call "d" [], .call "d" [], .call "tr" [.int 1, .int 0], .call "tr" [.int 2], .call "d" [],
+      .call "d" [], .call "d" [], .call "tr" [.int 2], .call "tr" [.int 0, .int 0]]) := by decide
+example : finalObs (XD [1, 0, 0, 1, 1]) 80 =
+    some (.ret (.int 0), [.call "d" [], .call "d" [], .call "tr" [.int 1, .int 0], .call "tr" [.int 2], .call "d" [],
+      .call "d" [], .call "d" [], .call "tr" [.int 2], .call "tr" [.int 0, .int 0]]) := by decide
+/-- the early `return` inside the loop -/
+example : finalObs (XD [1, 0, 1]) 80 = (execB (XD [1, 0, 1]) 40 exPipe Malt.Props.C01Jumps.σ0).map
+    (fun r => (fnResult r.1, r.2.log)) := by decide
 
 end Malt.Props.C01Compose
